@@ -502,6 +502,9 @@ func (e *specEnv) callExpr(c *ast.CallExpr) Val {
 				}
 				_, dom := e.x.mapGet(e.cur, mt, mv.T, keyTerm(e.expr(c.Args[1])))
 				return scalar(dom, types.Typ[types.Bool])
+			case "recvs":
+				ch := e.expr(c.Args[0])
+				return scalar(Select(e.cur.arr("X:recvs", BV(64)), ch.T), types.Typ[types.Int])
 			case "sends":
 				ch := e.expr(c.Args[0])
 				return scalar(Select(e.cur.arr("X:sends", BV(64)), ch.T), types.Typ[types.Int])
